@@ -51,7 +51,7 @@ func genC11(t *rapid.T) C11Sc {
 		ih[0] = byte(i) // distinct
 		sc.IHs = append(sc.IHs, ih)
 	}
-	n := rapid.IntRange(2, 30).Draw(t, "nops")
+	n := rapid.IntRange(2, deep(t, 30)).Draw(t, "nops")
 	for i := 0; i < n; i++ {
 		op := C11Op{IP: rapid.IntRange(0, nip-1).Draw(t, "op.ip"), SrcPort: genPort(t, "op.srcport"), IH: rapid.IntRange(0, nih-1).Draw(t, "op.ih")}
 		switch r := rapid.IntRange(0, 9).Draw(t, "op.kind"); {
